@@ -303,3 +303,67 @@ def condition_of(ctx, fi: FuncInfo, node: ast.AST, subst=None, canon=None):
         fm = ab.formula(e)
         extra.append(fm if pol else bn.mk_not(fm))
     return bn.mk_and([bn.mk_or(fs)] + extra)
+
+
+def symbolic_returns(fi: FuncInfo) -> List[Tuple[List[Tuple[ast.AST, bool]], Optional[ast.AST], ast.stmt]]:
+    """Path enumeration of a loop-free function with locals substituted away: [(conditions, returned value, stmt)];
+    conditions and values mention only parameters, attributes and calls (value None = falls off the end / bare return).
+    Assignments to plain names are substituted forward along each path (path-sensitive, so a name bound differently on
+    two branches is resolved on each)."""
+    body = [s for s in fi.node.body if not (isinstance(s, ast.Expr) and isinstance(s.value, ast.Constant))]
+    out: List[Tuple[List[Tuple[ast.AST, bool]], Optional[ast.AST], ast.stmt]] = []
+
+    def sub(e: ast.AST, env: Dict[str, ast.AST]) -> ast.AST:
+        class R(ast.NodeTransformer):
+            def visit_Name(self, n):
+                if isinstance(n.ctx, ast.Load) and n.id in env:
+                    return copy.deepcopy(env[n.id])
+                return n
+        return R().visit(copy.deepcopy(e))
+
+    def walk(stmts, conds, env):
+        for i, st in enumerate(stmts):
+            if isinstance(st, ast.If):
+                t = sub(st.test, env)
+                rest = stmts[i + 1:]
+                walk(st.body + rest, conds + [(t, True)], dict(env))
+                walk(st.orelse + rest, conds + [(t, False)], dict(env))
+                return
+            if isinstance(st, ast.Return):
+                out.append((conds, sub(st.value, env) if st.value is not None else None, st))
+                return
+            if isinstance(st, ast.Raise):
+                return
+            if isinstance(st, (ast.For, ast.While, ast.Try, ast.With)):
+                raise AnalysisError(f'{fi.fq}: symbolic paths: loop/try/with in a function expected to be straight-line')
+            if isinstance(st, ast.Assign) and len(st.targets) == 1 and isinstance(st.targets[0], ast.Name) and is_simple(st.value):
+                env[st.targets[0].id] = sub(st.value, env)
+                continue
+            if isinstance(st, ast.AnnAssign) and isinstance(st.target, ast.Name) and st.value is not None and is_simple(st.value):
+                env[st.target.id] = sub(st.value, env)
+                continue
+            for n in ast.walk(st):
+                if isinstance(n, ast.Name) and isinstance(n.ctx, (ast.Store, ast.Del)):
+                    env.pop(n.id, None)
+        out.append((conds, None, fi.node))
+    walk(body, [], {})
+    return out
+
+
+def calls_where(ctx, fi: FuncInfo, pred: Callable[[FuncInfo], bool], depth: int = 2) -> List[ast.Call]:
+    """Call sites in `fi` whose (single, repo-defined) callee satisfies `pred`, or calls such a function in turn."""
+    def sat(f: FuncInfo, d: int, seen: Set[str]) -> bool:
+        if f.fq in seen:
+            return False
+        seen = seen | {f.fq}
+        if pred(f):
+            return True
+        if d <= 0:
+            return False
+        return any(sat(c, d - 1, seen) for c in ctx.cg.callees(f) if c.module.name == f.module.name)
+    out = []
+    for call, ts in ctx.cg.calls_in(fi):
+        fs = [t.func for t in ts if t.kind == 'func']
+        if len(fs) == 1 and fs[0].fq != fi.fq and sat(fs[0], depth - 1, {fi.fq}):
+            out.append(call)
+    return out
